@@ -12,6 +12,7 @@ mod ops;
 mod ops2;
 mod ops3;
 mod ops4;
+mod ops5;
 mod conc;
 mod place;
 mod util;
